@@ -2176,4 +2176,100 @@ theorem remapped_keys_decode (hash : Option Bytes → Nat) (maxKey : Nat) (dicts
     rw [this]
     rfl
 
+/-! ### concat of offset-based nested arrays -/
+
+theorem referenced_prefix (l : BArr) (hw : l.WF) : ∀ n, n ≤ l.len →
+    copyRange l.data (l.offsets.getD 0 0, l.offsets.getD n 0) = ((List.range n).map (slotOf l.offsets l.data)).flatten := by
+  intro n
+  induction n with
+  | zero => intro _; simp [copyRange]
+  | succ n ih =>
+    intro hn
+    have hlen : n + 1 < l.offsets.length := by unfold BArr.len at hn; have := hw.nonempty; omega
+    rw [copyRange_split l.data _ (l.offsets.getD n 0) _ (hw.mono 0 n (by omega) (by omega)) (hw.mono n (n + 1) (by omega) hlen)]
+    rw [ih (by omega), List.range_succ, List.map_append, List.flatten_append]
+    simp [slotOf]
+
+/-- the child range an input refers to is the concatenation of its slot values -/
+theorem referencedChild_eq (l : BArr) (hw : l.WF) : referencedChild l = l.slots.flatten := by
+  unfold referencedChild BArr.lastOffset BArr.slots
+  exact referenced_prefix l hw l.len (Nat.le_refl _)
+
+theorem offsetLengths_eq (l : BArr) (hw : l.WF) : offsetLengths l.offsets = l.slots.map List.length := by
+  unfold offsetLengths BArr.slots
+  rw [List.map_map]
+  apply List.map_congr_left
+  intro i hi
+  have : i < l.len := by simpa [BArr.len] using hi
+  simp only [Function.comp]
+  rw [length_slot l hw i this]
+
+theorem fromLengths_eq (L : List (List Nat)) (c : Nat) : fromLengths (L.map List.length) c = scanEnds L c := by
+  induction L generalizing c with
+  | nil => rfl
+  | cons x xs ih => simp [fromLengths, scanEnds, ih]
+
+/-- **the concatenated child is exactly the concatenation of each input's referenced child range**
+— in both branches of `list_has_slices` / `map_has_slices`: when no input is a slice every child
+is referenced from 0 to its end, so taking the whole children is the same thing -/
+theorem concatLists_child (ls : List BArr) (hw : ∀ l ∈ ls, l.WF) :
+    (concatLists ls).data = (ls.map referencedChild).flatten := by
+  unfold concatLists
+  simp only
+  by_cases hs : ls.any listHasSlices = true
+  · simp [hs]
+  · simp only [hs, Bool.false_eq_true, if_false]
+    congr 1
+    apply List.map_congr_left
+    intro l hl
+    have hno : listHasSlices l = false := by
+      cases h : listHasSlices l with
+      | false => rfl
+      | true => exact absurd (List.any_eq_true.2 ⟨l, hl, h⟩) hs
+    unfold listHasSlices at hno
+    simp only [Bool.or_eq_false_iff, decide_eq_false_iff_not] at hno
+    have hb := (hw l hl).bound l.len (by unfold BArr.len; have := (hw l hl).nonempty; omega)
+    unfold referencedChild copyRange
+    unfold BArr.lastOffset at hno ⊢
+    have h0 : l.offsets.getD 0 0 = 0 := by omega
+    have h1 : l.offsets.getD l.len 0 = l.data.length := by omega
+    simp only []
+    rw [h0, h1]
+    simp
+
+/-- **`concat_lists` / `concat_maps` preserve every row**: the slots of the result (rebuilt offsets
+over the concatenated child) are the slots of the inputs, in order -/
+theorem concatLists_slots (ls : List BArr) (hw : ∀ l ∈ ls, l.WF) :
+    (concatLists ls).slots = (ls.map BArr.slots).flatten := by
+  have hchild := concatLists_child ls hw
+  have hdata : (concatLists ls).data = ((ls.map BArr.slots).flatten).flatten := by
+    rw [hchild]
+    have : ls.map referencedChild = ls.map (fun l => l.slots.flatten) :=
+      List.map_congr_left (fun l hl => referencedChild_eq l (hw l hl))
+    rw [this]
+    have hff : ∀ xs : List (List (List Nat)), (xs.map List.flatten).flatten = xs.flatten.flatten := by
+      intro xs; induction xs with
+      | nil => rfl
+      | cons x xs ih => simp [List.flatten_append, ih]
+    have := hff (ls.map BArr.slots)
+    rw [List.map_map] at this
+    exact this
+  have hoff : (concatLists ls).offsets = 0 :: scanEnds ((ls.map BArr.slots).flatten) 0 := by
+    unfold concatLists
+    simp only
+    congr 1
+    have : ls.flatMap (fun l => offsetLengths l.offsets) = ((ls.map BArr.slots).flatten).map List.length := by
+      rw [List.flatMap_def, List.map_flatten, List.map_map]
+      congr 1
+      exact List.map_congr_left (fun l hl => offsetLengths_eq l (hw l hl))
+    rw [this, fromLengths_eq]
+  have hsl : ∀ (L : List (List Nat)) c, (scanEnds L c).length = L.length := by
+    intro L; induction L <;> simp_all [scanEnds]
+  have := slots_build ((ls.map BArr.slots).flatten) []
+  simp only [List.length_nil, List.nil_append] at this
+  rw [show (concatLists ls).slots = (List.range ((concatLists ls).offsets.length - 1)).map
+        (slotOf (concatLists ls).offsets (concatLists ls).data) from rfl, hoff, hdata]
+  simp only [List.length_cons, hsl, Nat.add_sub_cancel]
+  exact this
+
 end ArrowModel.C03
